@@ -91,11 +91,8 @@ def has_empty(g):
 
 
 def f14_danger(g):
-    """compound curve with >= 2 sections one of which is empty: the real constructor crashes (F14, C11's finding)"""
-    if g[0] == 'CC':
-        return len(g[2]) >= 2 and any(len(s[2][1]) == 0 for s in g[2])
-    if g[0] in ('CP',) + COLL:
-        return any(f14_danger(k) for k in g[2])
+    """formerly F14 (compound curve with >= 2 sections one of which is empty crashed the constructor); fixed in /repo 2877c60bd:
+    the constructor throws, such trees belong to the invalid stream now"""
     return False
 
 
@@ -257,16 +254,10 @@ class Gen:
             g = rng.choice([lambda: self.compound(dims, sub_srid=True), lambda: self.curvepoly(dims, sub_srid=True),
                             lambda: ('GC', 0, [self.curvepoly(dims, sub_srid=True), self.point(dims)]),
                             lambda: ('MC', 0, [self.compound(dims, sub_srid=True)])])(); label = 'sub-srid'
-        elif r < 0.91:
-            label = 'own-output-rejected'
-            c = rng.random()
-            if c < 0.4:
-                g = ('CC', 0, [(rng.choice(['LS', 'CS']), 0, (dims, []))])
-                if rng.random() < 0.5: g = ('GC', 0, [g] + ([self.point(dims)] if rng.random() < 0.5 else []))
-            else:
-                k = rng.choice(['MP', 'ML', 'MG'])
-                wrong = {'MP': ['LS', 'PG', 'CS'], 'ML': ['PT', 'PG', 'CS', 'CC'], 'MG': ['PT', 'LS', 'CP']}[k]
-                g = (k, 0, [self.geom(0, dims, allowed=wrong)] + [self.geom(0, dims, allowed={'MP': ['PT'], 'ML': ['LS'], 'MG': ['PG']}[k]) for _ in range(rng.randint(0, 2))])
+        elif r < 0.89:
+            label = 'own-output-rejected'                   # COMPOUNDCURVE with a single EMPTY section: accepted by the constructor, 18 bytes written
+            g = ('CC', 0, [(rng.choice(['LS', 'CS']), 0, (dims, []))])
+            if rng.random() < 0.5: g = ('GC', 0, [g] + ([self.point(dims)] if rng.random() < 0.5 else []))
         else:
             g = self.invalid(dims); label = 'invalid'
         g = set_srid_tree(g, rng.choice(self.SRIDS))
@@ -275,7 +266,7 @@ class Gen:
     def invalid(self, dims):
         """trees the real constructors must refuse"""
         rng = self.rng
-        c = rng.randint(0, 7)
+        c = rng.randint(0, 9)
         if c == 0: g = ('LS', 0, (dims, [coordinate(rng, dims)]))
         elif c == 1: g = ('CS', 0, (dims, [coordinate(rng, dims), coordinate(rng, dims)]))
         elif c == 2:                                        # ring not closed (different end, or NaN start)
@@ -296,8 +287,17 @@ class Gen:
             a = self.line_seq(dims, empty_ok=False)
             b = self.line_seq(dims, start=['4059000000000000', 'c059000000000000'], empty_ok=False)
             g = ('CC', 0, [('LS', 0, a), ('LS', 0, b)])
-        else:                                               # two coordinates in a point
+        elif c == 7:                                        # two coordinates in a point
             g = ('PT', 0, (dims, [coordinate(rng, dims), coordinate(rng, dims)]))
+        elif c == 8:                                        # Multi* with an element of another class (refused since 4731a8595)
+            k = rng.choice(['MP', 'ML', 'MG'])
+            wrong = {'MP': ['LS', 'PG', 'CS'], 'ML': ['PT', 'PG', 'CS', 'CC'], 'MG': ['PT', 'LS', 'CP']}[k]
+            g = (k, 0, [self.geom(0, dims, allowed=wrong)] + [self.geom(0, dims, allowed={'MP': ['PT'], 'ML': ['LS'], 'MG': ['PG']}[k]) for _ in range(rng.randint(0, 2))])
+        else:                                               # compound curve with an empty section among >= 2 (refused since 2877c60bd, was F14)
+            a = self.line_seq(dims, empty_ok=False)
+            secs = [('LS', 0, a), (rng.choice(['LS', 'CS']), 0, (dims, []))]
+            rng.shuffle(secs)
+            g = ('CC', 0, secs)
         if rng.random() < 0.3:
             g = ('GC', 0, [self.point(dims), g])
         return g
@@ -363,9 +363,6 @@ def compare_case(ctx, label, g, mline, iline):
     if mline.startswith('BAD-LINE') or iline.startswith('BAD-LINE'):
         return [('broken', '-', 'line not parsed: model %s / impl %s' % (mline[:100], iline[:100]))]
     wf = 'WF=1' in head; reg = 'REG=1' in head
-    if iline.startswith('CRASH') and label == 'own-output-rejected' and 'downcast of address' in iline:
-        # sanitizer flavour: a Multi* holding an element of another class is a type confusion (static downcast in getGeometryN)
-        return [('known:own-output-rejected', '-', iline[:200])]
     if iline.startswith('CRASH') or iline == 'TIMEOUT' or iline == 'MISSING':
         return [('violation', '-', 'implementation %s' % iline[:300])]
     if iline.startswith('CONSTRUCT-FAIL'):
@@ -581,7 +578,7 @@ def reader_stream(ctx, drv, hexe, model, cases):
         hx = mutate_hex(rng, rng.choice(pool), rng.choice([1, 1, 1, 2, 3]))
         if hx: lines.append('R ' + hx)
     m = ctx.run_lines([drv], lines, timeout=900)
-    keep = [(l, o) for l, o in zip(lines, m) if o != 'ERR:F14' and not o.startswith('BAD-LINE')]
+    keep = [(l, o) for l, o in zip(lines, m) if not o.startswith('BAD-LINE')]
     skipped = len(lines) - len(keep)
     i = ctx.run_lines([hexe], [l for l, _ in keep], timeout=900)
     acc = rej = 0; bad = 0
@@ -597,6 +594,6 @@ def reader_stream(ctx, drv, hexe, model, cases):
             if bad <= 3:
                 ctx.broken.append(dict(kind='correspondence', name='reader on mutated encoding',
                                        detail='input %s\nmodel reader: %s\nimplementation: %s' % (l[:1000], mo[:1000], io[:1000])))
-    ctx.notes['reader_stream'] = dict(lines=len(lines), accepted=acc, rejected=rej, skipped_F14=skipped, disagreements=bad)
+    ctx.notes['reader_stream'] = dict(lines=len(lines), accepted=acc, rejected=rej, skipped=skipped, disagreements=bad)
     if acc == 0 or rej == 0:
         ctx.broken.append(dict(kind='generator', name='reader stream', detail='accepted %d rejected %d' % (acc, rej)))
